@@ -43,7 +43,7 @@ def run(tier, seed):
     s3 = [F(1 + i) for i in range(N)]
     const = lambda c: [F(c)] * N
 
-    def check(name, build, b, a, srcs_expected_reads=1):
+    def check(name, build, b, a, srcs_expected_reads=1, tol=None):
         def case():
             srcs = {}
 
@@ -54,7 +54,8 @@ def run(tier, seed):
             filt = build(S)
             got = list(filt(list(x), zero=F(0)))
             exp = tv_model(b, a, x)
-            if len(got) != len(exp) or any(F(g) != e for g, e in zip(got, exp)):
+            differs = (lambda g, e: F(g) != e) if tol is None else (lambda g, e: abs(float(g) - float(e)) > tol * (1 + abs(float(e))))
+            if len(got) != len(exp) or any(differs(g, e) for g, e in zip(got, exp)):
                 return False, "output %r, time-varying difference equation gives %r" % ([str(g) for g in got], [str(e) for e in exp])
             for tag, c in srcs.items():
                 if c.pulled != len(exp):
@@ -80,6 +81,11 @@ def run(tier, seed):
     check("square-of-a-stream-filter", lambda S: (S("s1", s1) + z ** -1) ** 2, {0: [v * v for v in s1], 1: [2 * v for v in s1], 2: const(1)}, {0: const(1)})
     check("cube-of-a-stream-filter-is-the-threefold-product", lambda S: (S("s1", s1) + z ** -1) ** 3,
           {0: [v ** 3 for v in s1], 1: [3 * v * v for v in s1], 2: [3 * v for v in s1], 3: const(1)}, {0: const(1)})
+    # a constant a0 that is not an integer: the generated code divides by the TEXT of the constant ("-5/4" evaluates to a
+    # float), so the outputs are floats and are compared with a relative tolerance of 1e-9
+    for a0 in (F(3, 2), F(-5, 4), F(1, 2)):
+        check("constant-rational-a0-with-stream-coefficients(a0=%s)" % a0, lambda S, a0=a0: ZFilter({0: S("s1", s1), 1: 2}, {0: a0, 1: S("s2", s2)}),
+              {0: s1, 1: const(2)}, {0: const(a0), 1: s2}, tol=1e-9)
     # the leading denominator coefficient a0 as a Stream
     check("a0-stream-no-feedback", lambda S: ZFilter([1, 2], {0: S("a0", s3)}), {0: const(1), 1: const(2)}, {0: s3})
     check("a0-stream-one-feedback-term", lambda S: ZFilter([1], {0: S("a0", s3), 1: F(1, 2)}), {0: const(1)}, {0: s3, 1: const(F(1, 2))})
